@@ -32,6 +32,20 @@ type DriverSpec struct {
 	Eager  bool   `json:"eager"` // issue as fast as the no-overlapping-bytes rule allows
 	// Targets are the remote ports requests are sent to (MemOp.Dst indexes it).
 	Targets []messaging.RemotePort `json:"targets"`
+	// Slow makes the driver leave responses in its port: "" = retrieve every
+	// tick, "every4" = only on every 4th tick, "hold12" = nothing before tick
+	// 12. The agents below then see a full output port and have to retry.
+	Slow string `json:"slow,omitempty"`
+}
+
+func mayRetrieve(slow string, ticks uint64) bool {
+	switch slow {
+	case "every4":
+		return ticks%4 == 0
+	case "hold12":
+		return ticks >= 12
+	}
+	return true
 }
 
 // DriverResult is what the driver observed for one op.
@@ -83,7 +97,10 @@ func (m *driverMW) Tick() bool {
 	progress := false
 	st.Ticks++
 
-	for {
+	if !mayRetrieve(spec.Slow, st.Ticks) && len(st.Inflight) > 0 {
+		progress = true // keep ticking while answers may be waiting in the port
+	}
+	for mayRetrieve(spec.Slow, st.Ticks) {
 		msg := port.RetrieveIncoming()
 		if msg == nil {
 			break
@@ -177,12 +194,15 @@ func (m *driverMW) Tick() bool {
 }
 
 // NewDriver builds a driver named name with a "Mem" port of the given buffer size.
-func NewDriver(e *Env, name string, ops []MemOp, eager bool, targets []messaging.RemotePort, portBuf int) *Driver {
+func NewDriver(e *Env, name string, ops []MemOp, eager bool, targets []messaging.RemotePort, portBuf int, slow ...string) *Driver {
 	script, err := json.Marshal(ops)
 	if err != nil {
 		panic(err)
 	}
 	spec := DriverSpec{Freq: 1 * timing.GHz, Script: string(script), Eager: eager, Targets: targets}
+	if len(slow) > 0 {
+		spec.Slow = slow[0]
+	}
 	c := modeling.NewBuilder[DriverSpec, DriverState, modeling.None]().
 		WithEngine(e.Eng).
 		WithFreq(spec.Freq).
